@@ -85,9 +85,66 @@ fn verif_local_initiated_step() {
     core::mem::forget(c);
 }
 
-// NOT covered: the waker list (parked openers woken as MAX_STREAMS credit arrives). A harness with two
-// counting wakers and even fully concrete MAX_STREAMS steps ran out of memory (SmallVec<Waker> drain +
-// RawWaker vtable calls; 20 GB, measured twice). A lost wake-up in wake_unblocked is not detected.
+// C02: credit events reach the wake-up of parked openers.
+// Cut (Kani stub of the private LocalInitiated::wake_unblocked): any SmallVec<Waker> content ran out
+// of memory under CBMC (20-25 GB, measured four times: counting wakers, no-op wakers, with and
+// without the drain), so under Kani the waker list stays empty and wake_unblocked is replaced by a
+// recording stub that notes the stream capacity visible at the moment it is called.  Decided on the
+// real code: every event that turns "no capacity" into "capacity" calls wake_unblocked AFTER the new
+// limit is in place.  Cut away: wake_unblocked's own body (drain, Waker::wake, token expiry).
+// The native replay has no stubs: there one real no-op waker is parked and must have left the list.
+#[cfg(kani)]
+static mut WAKE_SEEN_CAPACITY: u64 = 0;
+
+#[cfg(kani)]
+fn stub_wake_unblocked<L: LocalLimits, OpenNotify: OpenNotifyBehavior>(this: &mut LocalInitiated<L, OpenNotify>) {
+    let cap = this.available_stream_capacity().as_u64();
+    unsafe {
+        if cap > WAKE_SEEN_CAPACITY {
+            WAKE_SEEN_CAPACITY = cap;
+        }
+    }
+}
+
+#[cfg_attr(kani, kani::proof)]
+#[cfg_attr(kani, kani::unwind(3))]
+#[cfg_attr(kani, kani::stub(LocalInitiated::wake_unblocked, stub_wake_unblocked))]
+fn verif_local_initiated_credit_wakes() {
+    let peer = vi(M60);
+    let local = vi(M60);
+    let opened = vi(M60);
+    let closed = vi(M60);
+    kani::assume(closed <= opened && opened <= peer);
+    kani::assume(opened.as_u64() - closed.as_u64() <= local.as_u64());
+    let mut c: LocalInitiated<Lim, OpenNotifyUnidirectional> = LocalInitiated::new(peer, Lim(local));
+    c.opened_streams = opened;
+    c.closed_streams = closed;
+    // One task is parked. The capacity before the event is arbitrary: capacity > 0 with a task
+    // still parked is reachable (an earlier credit woke another task that has not run yet).
+    let cap_before = c.available_stream_capacity().as_u64();
+    c.wakers.push(core::task::Waker::noop().clone());
+    if kani::any() {
+        let v = vi((1 << 62) - 1);
+        c.on_max_streams(&MaxStreams { stream_type: StreamType::Unidirectional, maximum_streams: v });
+    } else {
+        kani::assume(closed < opened);
+        c.on_close_stream();
+    }
+    let cap = c.available_stream_capacity().as_u64();
+    if cap > cap_before {
+        // the parked opener must have been released with the new capacity already visible
+        #[cfg(kani)]
+        assert!(unsafe { WAKE_SEEN_CAPACITY } == cap);
+        #[cfg(not(kani))]
+        assert!(c.wakers.is_empty());
+        kani::cover!(c.peer_cumulative_stream_limit > peer, "released by MAX_STREAMS");
+        kani::cover!(c.closed_streams > closed, "released by a closing stream");
+        kani::cover!(cap_before >= 1, "credit while an earlier wake-up is still unconsumed");
+    } else {
+        kani::cover!(c.peer_cumulative_stream_limit > peer, "peer credit arrived but the local limit still blocks");
+    }
+    core::mem::forget(c);
+}
 
 // ---- generated by tools/fixup.py: native replay entry ----
 #[cfg(not(kani))]
@@ -95,5 +152,6 @@ fn verif_local_initiated_step() {
 fn verif_replay() {
     kani::replay(&[
         ("verif_local_initiated_step", verif_local_initiated_step),
+        ("verif_local_initiated_credit_wakes", verif_local_initiated_credit_wakes),
     ]);
 }
